@@ -3,6 +3,8 @@ mod tap;
 
 pub use empty::Empty;
 pub use tap::Tap;
+#[cfg(rustzx_verif)]
+pub use tap::VerifTapState;
 
 use crate::{
     host::{LoadableAsset, SeekableAsset},
